@@ -1002,7 +1002,11 @@ def deep_unknown(r):
     inner = ("struct", [(1, ("i32", 7)), (2, ("struct", [(1, ("bin", b"in")), (3, ("i64", -1))])), (4, ("bin", b"after"))])
     inner2 = ("struct", [(2, ("struct", [])), (9, ("bool", True))])
     m = ("map", "i32", "struct", [(("i32", 1), inner), (("i32", 2), inner2)])
-    c = r.randrange(5)
+    c = r.randrange(7)
+    if c == 5:      # many small structs: whatever a skipper keeps per element adds up (2400 x field 14, 2400 x fields 1..3)
+        return ("list", "struct", [("struct", [(14, ("i8", 1))])] * 2400)
+    if c == 6:
+        return ("set", "struct", [("struct", [(1, ("bool", True)), (2, ("i8", 2)), (3, ("bool", False))])] * 2400)
     if c == 0:
         return m
     if c == 1:
